@@ -189,6 +189,8 @@ class OrderAnalysis:
                         el = self.set_elem(node.iter, env, ci)
                         if el is not None:
                             safe, why = self.loop_body_order_free(node)
+                            if not safe:
+                                safe, why = self.own_entry_effects(node, fn, ci, mname)
                             out.append(self._site(fn, mname, qn, node.iter, el, 'for', safe, why, node))
                     elif isinstance(node, ast.comprehension):
                         el = self.set_elem(node.iter, env, ci)
@@ -434,6 +436,145 @@ class OrderAnalysis:
             if not self._stmt_order_free(st):
                 return False, ''
         return True, 'loop body only performs order-independent effects (set insertion, membership, early boolean result)'
+
+    # ------------------------------------------------------------------
+    # effect rule: every iteration reads and writes only the table entry of its own element
+    _PURE_CALLS = ('len', 'abs', 'int', 'min', 'max')
+
+    def own_entry_effects(self, loop: ast.For, fn, ci, mname, _depth=0):
+        """`for x in S: ...` where each iteration only (a) rebinds / updates storage rooted at `T[x]` for a loop-invariant table T,
+        (b) adds to sets, (c) binds locals from pure expressions, (d) calls a method of the class whose own effects are confined to
+        `T[<its parameter>]`: the iterations commute, the order of S cannot be observed.  Reads of the table at another key are
+        refused; loop-invariant locals that were loaded from the table before the loop are accepted only under a recorded
+        distinctness reason (spec/order_triage.DISTINCT_ENTRIES) - that they are not the entry of an element of S is a fact about
+        the data, not about the shape of the loop."""
+        from ..spec.order_triage import DISTINCT_ENTRIES
+        if not isinstance(loop.target, ast.Name):
+            return False, ''
+        x = loop.target.id
+        stored = {n.id for st in loop.body for n in ast.walk(st) if isinstance(n, ast.Name) and isinstance(n.ctx, (ast.Store, ast.Del))}
+        if x in stored:
+            return False, ''
+        tables: set[str] = set()
+        inner_vars: set[str] = set()
+
+        def root_entry(t):
+            """T text if the store target `t` is rooted at T[x] (T loop-invariant), else None"""
+            cur = t
+            while isinstance(cur, (ast.Attribute, ast.Subscript)):
+                if isinstance(cur, ast.Subscript) and isinstance(cur.slice, ast.Name) and cur.slice.id == x:
+                    base = cur.value
+                    names = {n.id for n in ast.walk(base) if isinstance(n, ast.Name)}
+                    if not (names & (stored | {x} | inner_vars)) and isinstance(base, (ast.Name, ast.Attribute)):
+                        return ast.unparse(base)
+                cur = cur.value
+            return None
+
+        def pure(e) -> bool:
+            for n in ast.walk(e):
+                if isinstance(n, ast.Call):
+                    f = n.func
+                    if isinstance(f, ast.Attribute) and f.attr == '_replace':
+                        continue
+                    if isinstance(f, ast.Name) and f.id in self._PURE_CALLS:
+                        continue
+                    return False
+                if isinstance(n, (ast.Lambda, ast.ListComp, ast.SetComp, ast.DictComp, ast.GeneratorExp, ast.NamedExpr, ast.Await,
+                                  ast.Yield, ast.YieldFrom, ast.Starred)):
+                    return False
+            return True
+
+        def stmt_ok(st) -> bool:
+            if self._stmt_order_free(st) and not isinstance(st, ast.If):
+                return all(pure(a) for a in ast.iter_child_nodes(st.value)) if isinstance(st, ast.Expr) else True
+            if isinstance(st, ast.Assign) and len(st.targets) == 1 and isinstance(st.targets[0], ast.Name):
+                return pure(st.value)
+            if isinstance(st, (ast.Assign, ast.AugAssign)):
+                tgt = st.targets[0] if isinstance(st, ast.Assign) and len(st.targets) == 1 else getattr(st, 'target', None)
+                if tgt is None:
+                    return False
+                t = root_entry(tgt)
+                if t is None or not pure(st.value):
+                    return False
+                tables.add(t)
+                return True
+            if isinstance(st, ast.If):
+                return pure(st.test) and all(stmt_ok(s) for s in st.body + st.orelse)
+            if isinstance(st, ast.For) and isinstance(st.target, ast.Name) and not st.orelse and pure(st.iter):
+                names = {n.id for n in ast.walk(st.iter) if isinstance(n, ast.Name)}
+                if names & (stored - {st.target.id}) and not names <= {x} | (stored - {st.target.id}):
+                    pass
+                inner_vars.add(st.target.id)
+                return all(stmt_ok(s) for s in st.body)
+            if isinstance(st, ast.Expr) and isinstance(st.value, ast.Call):
+                c = st.value
+                f = c.func
+                if isinstance(f, ast.Attribute) and isinstance(f.value, ast.Name) and f.value.id == 'self' and ci is not None \
+                        and len(c.args) == 1 and not c.keywords and isinstance(c.args[0], ast.Name) and c.args[0].id == x and _depth < 2:
+                    hit = self.py.find_method(ci, f.attr)
+                    if hit is None:
+                        return False
+                    hfn = hit[1]
+                    if len(hfn.args.args) != 2 or hfn.args.vararg or hfn.args.kwarg or hfn.decorator_list:
+                        return False
+                    # the helper body as the body of a one-element loop over its parameter
+                    fake = ast.For(target=ast.Name(id=hfn.args.args[1].arg, ctx=ast.Store()), iter=ast.Name(id='_', ctx=ast.Load()),
+                                   body=hfn.body, orelse=[])
+                    ok, _w, ts = self._own_entry_raw(fake, hfn, hit[0], mname, _depth + 1)
+                    if ok:
+                        tables.update(ts)
+                    return ok
+            return False
+
+        if not all(stmt_ok(st) for st in loop.body):
+            return False, ''
+        # reads of a table at a key that is not the element itself: another iteration may have rewritten that entry; and any other use
+        # of the table as a whole (len(table), iteration, membership of another key) sees what earlier iterations did
+        for st in loop.body:
+            whole = own = 0
+            for n in ast.walk(st):
+                if isinstance(n, (ast.Name, ast.Attribute)) and ast.unparse(n) in tables:
+                    whole += 1
+                if isinstance(n, ast.Subscript) and ast.unparse(n.value) in tables:
+                    if not (isinstance(n.slice, ast.Name) and n.slice.id == x):
+                        return False, ''
+                    own += 1
+            if whole != own:
+                return False, ''
+        # loop-invariant locals loaded from the table before the loop: may be the entry of an element unless recorded distinct
+        assumed = []
+        if tables:
+            read = {n.id for st in loop.body for n in ast.walk(st) if isinstance(n, ast.Name) and isinstance(n.ctx, ast.Load)}
+            for v in sorted(read - stored - {x} - inner_vars):
+                # every binding of the local in the function: a value (or iterated collection) that mentions the table may be an entry
+                sources = []
+                for n in ast.walk(fn):
+                    if isinstance(n, (ast.Assign, ast.AnnAssign, ast.AugAssign, ast.NamedExpr)):
+                        tg = n.targets if isinstance(n, ast.Assign) else [n.target]
+                        if any(isinstance(y, ast.Name) and y.id == v and isinstance(y.ctx, ast.Store) for t in tg for y in ast.walk(t)) \
+                                and n.value is not None:
+                            sources.append(n.value)
+                    elif isinstance(n, (ast.For, ast.comprehension)) and any(isinstance(y, ast.Name) and y.id == v for y in ast.walk(n.target)):
+                        sources.append(n.iter)
+                    elif isinstance(n, ast.withitem) and n.optional_vars is not None \
+                            and any(isinstance(y, ast.Name) and y.id == v for y in ast.walk(n.optional_vars)):
+                        sources.append(n.context_expr)
+                if any(ast.unparse(y) in tables for src in sources for y in ast.walk(src) if isinstance(y, (ast.Name, ast.Attribute))):
+                    assumed.append(v)
+        self._last_tables = set(tables)
+        if assumed:
+            cname = ci.name if ci is not None else ''
+            for t in sorted(tables):
+                reason = DISTINCT_ENTRIES.get((mname, cname, t))
+                if reason is None:
+                    return False, ''
+            return True, (f'every iteration only touches the entry {sorted(tables)}[{x}] of its own element; the entries loaded before the '
+                          f'loop ({", ".join(assumed)}) are distinct from it: {reason}')
+        return True, f'every iteration only touches the entry {sorted(tables)}[{x}] of its own element (and adds to sets)'
+
+    def _own_entry_raw(self, loop, fn, ci, mname, depth):
+        ok, why = self.own_entry_effects(loop, fn, ci, mname, depth)
+        return ok, why, (getattr(self, '_last_tables', set()) if ok else set())
 
     def _stmt_order_free(self, st) -> bool:
         if isinstance(st, ast.Expr) and isinstance(st.value, ast.Call) and isinstance(st.value.func, ast.Attribute) \
